@@ -47,6 +47,8 @@ def binding_doc(progs):
         line = "  TSource { id: t%d\n    %s: " % (i, p["prop"])
         start = len((qml + line).encode())
         body = lang.r_body(p["body"])
+        if p.get("cm"):
+            body = lang.with_comments(body, p["cm"])
         qml += line + body + "\n  }\n"
         spans.append((start, start + len(body.encode())))
     return qml + "}\n", spans
